@@ -95,7 +95,8 @@ def snap_rec(owner):
     rt = owner.rec
     cons = [c for c in cons_of(owner, "rec") if c[0] != 0]
     return [c01_impl.snapshot(rt), cons, fhex(rt.dt), fhex(rt.duration), 1 if rt.inclusive else 0,
-            1 if rt.valid else 0, 1 if rt.ignored else 0, isparam(rt.value)]
+            1 if rt.valid else 0, 1 if rt.ignored else 0, isparam(rt.value),
+            sorted([int(k), int(v)] for k, v in rt.constraints.items())]
 
 
 def mkstorage(x):
